@@ -5,7 +5,7 @@ import CpModel.Multipart
 
     BOUNDARYHEX MAXRAM BODYHEX
 
-  Output: `ok rest=<n> done=<0|1> P <name> <filename> <ctype> <spilled> <content> P …`
+  Output: `ok rest=<n> done=<0|1> G=<name>:<i>+<j>,… P <name> <filename> <ctype> <spilled> <content> P …`
   (hex fields, `N` for None, `-` for empty) or `err:<kind>`.
 -/
 open CpModel CpModel.Reader CpModel.Multipart
@@ -31,7 +31,10 @@ def step (line : String) : String :=
         let ps := parts.map fun p =>
           let i := partInfo p.headers
           s!" P {optHex i.name} {optHex i.filename} {Proto.hex i.ctype} {if p.spilled then 1 else 0} {Proto.hex p.content}"
-        s!"ok rest={src.rest.length} done={if src.done then 1 else 0}" ++ String.join ps
+        let g := (formParams (parts.map fun p => partInfo p.headers)).map fun (k, vs) =>
+          s!"{Proto.hex k}:" ++ "+".intercalate (vs.map toString)
+        s!"ok rest={src.rest.length} done={if src.done then 1 else 0} G={if g.isEmpty then "-" else ",".intercalate g}"
+          ++ String.join ps
     | _, _, _ => "bad-op"
   | _ => "bad-op"
 
